@@ -1,5 +1,6 @@
 import GoPlugin.Lemmas.MuxBroker
 import GoPlugin.Model.GrpcBroker
+import GoPlugin.Model.GrpcMux
 import GoPlugin.Lemmas.MuxBrokerTimed
 /-
 C09 — Brokers stay live: unmatched, duplicate or late peers cannot wedge them
@@ -264,5 +265,17 @@ theorem send_after_stream_end_returns (S : GrpcBroker.StreamerParams) (hS : S.Go
 
 /-- Witness: a buffered hand-over can accept a message nobody will ever send -/
 theorem buffered_send_witness : GrpcBroker.sendAfterEndReturns ⟨false⟩ = false := by decide
+
+/-- **A listener closed mid-negotiation does not wedge the plugin's accept loop**: whether the announced stream is taken
+by its listener or the listener has been closed by then (one of the two always holds: an open listener is being served
+or will be), the main accept loop gets past the hand-off and accepts what follows. -/
+theorem closed_listener_releases_loop (H : GrpcMux.HandoffParams) (hH : H.Good) (taken closed : Bool)
+    (h : taken = true ∨ closed = true) : GrpcMux.loopPastHandoff H taken closed = true := by
+  have hr : H.releasedOnClose = true := hH
+  rcases h with h | h <;> simp [GrpcMux.loopPastHandoff, h, hr]
+
+/-- Witness: with a plain blocking send, a listener closed between the knock's acknowledgement and the stream's arrival
+leaves the loop waiting for ever -/
+theorem plain_send_wedges_witness : GrpcMux.loopPastHandoff ⟨false⟩ false true = false := by decide
 
 end GoPlugin.Props.C09
